@@ -15,10 +15,15 @@ sys.setrecursionlimit(10000)
 
 def linearizable(ops):
     """ops: list of (inv, resp, kind, arg, result) for ONE key; kinds put(arg=id)->ok, get->id|nil, del->true|false.
-    Returns True iff some total order respecting real time explains all results (initial state nil)."""
+    Returns True iff some total order respecting real time explains all results (initial state nil).
+    Exact search (Wing-Gong / Lowe style), iterative: operations are sorted by invocation; a search node is
+    (index of the first operation not yet linearized, the later ones already linearized, register value). The next
+    operation must have been invoked before every still-open operation responded, so the candidates lie in a window
+    whose width is bounded by the number of threads, whatever the length of the history."""
+    ops = sorted(ops, key=lambda o: (o[0], o[1]))
     n = len(ops)
-    ops = sorted(ops, key=lambda o: o[0])
-    seen = set()
+    inv = [o[0] for o in ops]
+    resp = [o[1] for o in ops]
 
     def apply(state, op):
         _, _, kind, arg, res = op
@@ -28,26 +33,42 @@ def linearizable(ops):
             return (res == (state if state is not None else "nil")), state
         return (res == ("true" if state is not None else "false")), None
 
-    def search(done, state):
-        if done == (1 << n) - 1:
+    seen = set()
+    stack = [(0, frozenset(), None)]
+    while stack:
+        lo, extra, state = stack.pop()
+        if lo >= n:
             return True
-        key = (done, state)
+        key = (lo, extra, state)
         if key in seen:
-            return False
+            continue
         seen.add(key)
-        # candidates: not done, and no other not-done op responded before this one was invoked
-        min_resp = min(ops[i][1] for i in range(n) if not done >> i & 1)
-        for i in range(n):
-            if done >> i & 1:
+        m = resp[lo]
+        cands = [lo]
+        i = lo + 1
+        while i < n and inv[i] <= m:
+            if i not in extra:
+                cands.append(i)
+                if resp[i] < m:
+                    m = resp[i]
+            i += 1
+        nxt = []
+        for c in cands:
+            if inv[c] > m:
                 continue
-            if ops[i][0] > min_resp:
-                break
-            ok, st2 = apply(state, ops[i])
-            if ok and search(done | 1 << i, st2):
-                return True
-        return False
-
-    return search(0, None)
+            ok, st2 = apply(state, ops[c])
+            if not ok:
+                continue
+            if c == lo:
+                nl, ex = lo + 1, set(extra)
+                while nl in ex:
+                    ex.discard(nl)
+                    nl += 1
+                nxt.append((nl, frozenset(ex), st2))
+            else:
+                nxt.append((lo, extra | {c}, st2))
+        stack.extend(reversed(nxt))
+    return False
 
 
 def check_history(hist):
@@ -208,9 +229,15 @@ def run_c04(rep, tier, seed):
         ops = rng.choice([40, 80]) if tier == "quick" else rng.choice([60, 150])
         keys = rng.choice([1, 2, 4])
         big = rng.choice([0, 30, 60])
+        dels, spin = 25, ""
+        if ri % 3 == 2:
+            # hot key, overwrites only: a get that follows a completed set can never be answered `nil`, so a window in
+            # which a published key is momentarily missing from the index cannot hide behind a concurrent delete
+            keys, dels, writers, readers, ops, big = 1, 0, 1, 4, 1500, rng.choice([0, 10])
+            spin = " spin=1 minms=150"      # readers keep reading as fast as they can until the writer is done (sampled recording)
         preset = rng.choice(["frag=0/1 dead=0 small=1099511627776", "frag=1/4 dead=1099511627776 small=0", "frag=1/1 dead=1099511627776 small=200"])
         lines = [f"cfg mfs={mfs} pool={pool} cache={cache} {preset}", f"dir st{ri}", "open",
-                 f"stress writers={writers} readers={readers} mergers=1 ops={ops} keys={keys} seed={rng.randint(1, 10**6)} big={big}", "idle"]
+                 f"stress writers={writers} readers={readers} mergers=1 ops={ops} keys={keys} seed={rng.randint(1, 10**6)} big={big} dels={dels}{spin}", "idle"]
         shutil.rmtree(root, ignore_errors=True)
         died = None
         try:
@@ -240,7 +267,7 @@ def run_c04(rep, tier, seed):
             rep.sample({"stress": lines, "history_head": h[:8]})
     shutil.rmtree(root, ignore_errors=True)
     rep.cov["rule"] = ("(1) %d hand-written forced schedules using the crate's schedule points and a pause before a chosen write(2) (the two windows named in the property, merge/reader and writer/reader windows); "
-                       "(2) free-running stress: 1-3 writers (put with unique values of 8..48 bytes or 8191/8192/9000/20000 bytes, del), 1-4 readers, one merging thread, max_file_size in {0,60,300,9000,30000}, pool 1/2/4, cache 0/1/256; "
+                       "(2) free-running stress: 1-3 writers (put with unique values of 8..48 bytes or 8191/8192/9000/20000 bytes, del; every third run: one hot key, one writer that only overwrites for at least 150 ms / 1500 times, 4 readers reading as fast as they can until the writer is done (a get is recorded when its result changes and every 100 us)), 1-4 readers, one merging thread, max_file_size in {0,60,300,9000,30000}, pool 1/2/4, cache 0/1/256; "
                        "the timestamped history is checked per key for linearizability (exact memoised search), values for tearing, results for panics/errors, the run for hangs, the pool for leaked readers; "
                        "(3) correspondence with the LTS the theorems are about (`CStore.step`): model-guided schedules over 3 file sizes x 2 pool sizes x 6 initial stores x {get, put (3 bytes / 9000 bytes = two write(2) calls), del, merge} parked at each of its schedule points "
                        "(optionally a second, later one) while a second operation runs; for every move the model's prediction (parked at the point / finished with result / blocked) is compared with the real thread, and at the end the index, the active file id, "
